@@ -49,6 +49,19 @@ def gen(rng, tier, info):
         pc["tags"] = (["fault"] if any(f >= 0 for f, _ in ops) else []) + [pc["md"], "model:%d" % pc["model"] if pc["model"] < 100 else "model:ext", "slops%d" % min(nsl, 5)]
         pc["nontrivial"] = nsl >= 2
         cases.append(vlib.pcase(pc))
+    # a fault at the k-th call of Builder::init (incl. the sleep-out command of every model): init must fail, not hand
+    # out a display that reports "awake" for a controller that never received sleep-out
+    from props import initgen
+    pcs = initgen.init_cases(rng, "quick", info, per_model_opts=2, ext=False)
+    for pc in pcs:
+        if "unsupported" in pc["tags"]:
+            continue
+        for k in ([rng.range(0, 12), rng.range(0, 70)] if tier == "quick" else list(range(0, 75, 2))):
+            q = dict(pc)
+            q["init_fail"] = k
+            q["tags"] = ["init-fault"]
+            q["nontrivial"] = True
+            cases.append(vlib.pcase(q))
     return cases
 
 
